@@ -352,30 +352,69 @@ func (x *executor) protoUnmarshal(m *machine, fr *frame, in ssa.Instruction, res
 	nn := mkNot(mkEq(ref, refConst(0)))
 	x.oblige(m, "nil", x.instrName(fr, in, "nil"), nn, nil, "message pointer is not nil")
 	nv := c.d.fresh("unmarshalled", c.sortOf(pt.Elem()))
+	// like an input: sizes bounded by the address space, references to memory outside this call's allocations
 	st.assume(c.valueWF(nv, pt.Elem()))
+	st.assume(c.inputWF(nv, pt.Elem()))
 	c.setHeap(st, pt.Elem(), mkStore(c.heapOf(st, pt.Elem()), ref, nv))
-	// repeated message fields: no nil elements; they point into memory that existed before (not this call's allocations)
-	su := pt.Elem().Underlying().(*types.Struct)
-	si := c.structOf(pt.Elem())
+	// well-formedness of decoded messages (to depth 3): repeated message fields have no nil elements
+	st.assume(x.pbMsgWF(st, nv, pt.Elem(), 3))
+	x.externs["proto.Unmarshal (overwrites the message with an arbitrary well-formed message of its type, repeated message fields have no nil elements; or returns an error)"] = true
+	e := c.d.fresh("unmarshal_err", "Iface")
+	x.setResult(fr, res, []Val{{t: e, typ: errT}})
+}
+
+// pbMsgWF: facts about a decoded protobuf message value v of struct type t: elements of repeated
+// message fields are non-nil and (recursively, to the given depth) well-formed; singular message
+// fields are nil or well-formed.
+func (x *executor) pbMsgWF(st *state, v *T, t types.Type, depth int) *T {
+	c := x.c
+	su, ok := t.Underlying().(*types.Struct)
+	if !ok || depth == 0 {
+		return tTrue
+	}
+	si := c.structOf(t)
 	intT := types.Typ[types.Int]
+	var facts []*T
+	isMsg := func(pt types.Type) (types.Type, bool) {
+		p, ok := pt.Underlying().(*types.Pointer)
+		if !ok {
+			return nil, false
+		}
+		if _, ok := p.Elem().Underlying().(*types.Struct); !ok {
+			return nil, false
+		}
+		if n, ok := types.Unalias(p.Elem()).(*types.Named); ok && n.Obj().Pkg() != nil && strings.HasSuffix(n.Obj().Pkg().Path(), "/pb") {
+			return p.Elem(), true
+		}
+		return nil, false
+	}
 	for i := 0; i < su.NumFields(); i++ {
 		ft := su.Field(i).Type()
+		fv := mkSel(si.ctor, i, v)
+		if mt, ok := isMsg(ft); ok {
+			inner := x.pbMsgWF(st, mkSelect(c.heapOf(st, mt), fv), mt, depth-1)
+			facts = append(facts, mkImp(mkNot(mkEq(fv, refConst(0))), inner))
+			continue
+		}
 		sl, ok := ft.Underlying().(*types.Slice)
 		if !ok {
 			continue
 		}
-		if _, isPtr := sl.Elem().Underlying().(*types.Pointer); !isPtr {
+		p, isPtr := sl.Elem().Underlying().(*types.Pointer)
+		if !isPtr {
 			continue
 		}
-		fv := mkSel(si.ctor, i, nv)
 		qcounter++
 		k := atom(fmt.Sprintf("k!%d", qcounter), c.intSort())
 		el := mkSelect(mkSelect(c.arrOf(st, sl.Elem()), c.slRef(fv)), c.ix(c.slOff(fv), k))
-		body := mkImp(mkAnd(c.cmp(token.LEQ, c.I(0), k, intT), c.cmp(token.LSS, k, c.slLen(fv), intT)), mkNot(mkEq(el, refConst(0))))
+		elemFacts := []*T{mkNot(mkEq(el, refConst(0)))}
+		if mt, ok := isMsg(sl.Elem()); ok {
+			elemFacts = append(elemFacts, x.pbMsgWF(st, mkSelect(c.heapOf(st, mt), el), mt, depth-1))
+		}
+		_ = p
+		body := mkImp(mkAnd(c.cmp(token.LEQ, c.I(0), k, intT), c.cmp(token.LSS, k, c.slLen(fv), intT)), mkAnd(elemFacts...))
 		body = withTriggers(body, []string{k.op})
-		st.assume(app(fmt.Sprintf("forall ((%s %s))", k.op, k.sort), "Bool", body))
+		facts = append(facts, app(fmt.Sprintf("forall ((%s %s))", k.op, k.sort), "Bool", body))
 	}
-	x.externs["proto.Unmarshal (overwrites the message with an arbitrary well-formed message of its type, repeated message fields have no nil elements; or returns an error)"] = true
-	e := c.d.fresh("unmarshal_err", "Iface")
-	x.setResult(fr, res, []Val{{t: e, typ: errT}})
+	return mkAnd(facts...)
 }
